@@ -207,8 +207,12 @@ def oracle_project(case: Dict[str, Any], obs: Dict[str, Any]) -> Optional[Tuple[
     one entry per visible object (reachable through contents), name -> page#anchor.  Returns (message, bad names)."""
     if obs.get('build_exc'):
         return ('building/writing the project raised ' + obs['build_exc'], [])
+    html_mode = obs.get('mode', 'intersphinx') != 'intersphinx'
+    what = 'documented by this run at' if html_mode else 'documented at'
     vis = {}
-    for n, u in obs['visible']:
+    # with HTML output: the objects whose page (and anchor) this very run wrote; without: the visible objects
+    # reachable from the root objects
+    for n, u in (obs['documented'] if html_mode else obs['visible']):
         if n in vis and vis[n] != u:
             return ('two visible objects share the qualified name %r but not the location (%r, %r)' % (n, vis[n], u), [n])
         vis[n] = u
@@ -223,7 +227,7 @@ def oracle_project(case: Dict[str, Any], obs: Dict[str, Any]) -> Optional[Tuple[
     for n in sorted(set(got) | set(want)):
         if got.get(n) != want.get(n):
             bad.append(n)
-            msgs.append("pydoctor's reader: %r -> %r, documented at %r" % (n, got.get(n), want.get(n)))
+            msgs.append("pydoctor's reader: %r -> %r, %s %r" % (n, got.get(n), what, want.get(n)))
         elif ans.get(n) != BASE + '/' + vis[n]:
             bad.append(n)
             msgs.append('getLink(%r) = %r, documented at %r' % (n, ans.get(n), BASE + '/' + vis[n]))
@@ -244,7 +248,14 @@ def oracle_project(case: Dict[str, Any], obs: Dict[str, Any]) -> Optional[Tuple[
     for n in sorted(set(sgot) | set(vis)):
         if sgot.get(n) != ([vis[n]] if n in vis else None):
             bad.append(n)
-            msgs.append('Sphinx reader: %r -> %r, documented at %r' % (n, sgot.get(n), vis.get(n)))
+            msgs.append('Sphinx reader: %r -> %r, %s %r' % (n, sgot.get(n), what, vis.get(n)))
+    for n, loc, file_ok, anchor_ok in obs.get('targets', []):
+        if not file_ok:
+            bad.append(n)
+            msgs.insert(0, 'entry %r -> %r: that page was not written by this run (mode %s)' % (n, loc, obs.get('mode')))
+        elif not anchor_ok:
+            bad.append(n)
+            msgs.insert(0, 'entry %r -> %r: the page has no such anchor' % (n, loc))
     if obs.get('writer_errors'):
         msgs.append('the writer reported %d error(s)' % obs['writer_errors'])
     if msgs:
@@ -315,8 +326,10 @@ class Check(PropertyCheck):
             'variants; projects: generated Systems (nested classes, duplicates, hidden/private, packages, names with spaces) '
             'and real packages (pydoctor/test/testpackages; thorough: pydoctor itself) written by driver.make and read back by '
             'pydoctor and Sphinx. non-trivial = a line that reaches the column '
-            'arithmetic (>= 3 pieces) / a fetch that reaches _parseInventory with >= 1 line / a project with >= 1 hidden object '
-            'or a name with a space; counted over distinct cases')
+            'arithmetic (>= 3 pieces) / a fetch that reaches _parseInventory with >= 1 line / a project with >= 1 hidden object, '
+            'a name with a space, or an HTML output mode; projects run in every output mode of driver.make (--make-intersphinx, '
+            '--make-html, both, --html-subject, --html-summary-pages) and with HTML each entry is compared with the pages and '
+            'anchors that run wrote; counted over distinct cases')
     trusted_base = [
         'Coq 8.16.1 kernel (coqc; vm_compute for witnesses and for closed facts about py_int; no native_compute)',
         'no axioms (Print Assumptions: Closed under the global context for every theorem)',
@@ -329,7 +342,8 @@ class Check(PropertyCheck):
         'validated against CPython on every run (all code points, generated strings)',
     ]
     assumptions = [
-        'subjects of the writer are root objects (driver.make without --html-subject)',
+        'an --html-subject is a module or class (an object with a page of its own); a function or attribute given as '
+        '--html-subject gets an inventory line but no page -- not generated, not modelled',
         'parent/contents coherence of the object tree (C02): isVisible of the parent is the visibility passed down',
         'names contain no lone surrogates (str.encode would raise in the writer, and in quote() long before)',
     ]
@@ -572,6 +586,20 @@ class Check(PropertyCheck):
             c['kind'] = kind
             out.append(c)
             self.count('project_' + kind)
+        # every output mode of driver.make on two fixed projects (first, so that they run in every tier)
+        acme = {'acme/__init__.py': '"doc"\n',
+                'acme/core.py': 'LIMIT = 3\n"c"\ndef run(x):\n  "r"\nclass Engine:\n  "e"\n  def start(self):\n    "s"\n'
+                                '  class _In:\n    v = 1\n',
+                'acme/util.py': 'def helper():\n  "h"\n', 'acme/_impl.py': 'class Hid:\n  def m(self): pass\n'}
+        two = [['one', 'def f(): pass\nclass C:\n  a = 1\n  def m(self): pass\n', None, False],
+               ['two', '"doc"\n', None, True], ['sub', 'class D:\n  class E:\n    x = 1\n', 'two', False]]
+        for mode, extra in [('intersphinx', {}), ('html', {}), ('html+intersphinx', {}), ('summary', {}),
+                            ('subject', {'subjects': ['acme.util']}),
+                            ('subject', {'subjects': ['acme.core.Engine', 'acme.util']})]:
+            add(dict({'files': acme, 'privacy': [['HIDDEN', 'acme._impl.Hid']], 'mode': mode}, **extra), 'mode_' + mode)
+        for mode, extra in [('intersphinx', {}), ('html', {}), ('summary', {}), ('subject', {'subjects': ['two.sub', 'one']}),
+                            ('subject', {'subjects': ['two.sub.D.E']})]:
+            add(dict({'mods': two, 'privacy': [['HIDDEN', 'one.C.m']], 'mode': mode}, **extra), 'mode_' + mode)
         # corpus
         add({'mods': [['m', 'def f(): pass\ndef f(): pass\nclass _P:\n  class N:\n    def g(self): pass\n    x = 1\n', None, False]],
              'privacy': [['HIDDEN', 'm._P.N']]}, 'corpus')
@@ -632,7 +660,24 @@ class Check(PropertyCheck):
             for _ in range(r.randint(0, 3)):
                 if full:
                     privacy.append([r.choice(['HIDDEN', 'HIDDEN', 'PRIVATE', 'PUBLIC']), r.choice(full + ['*._p', '**._q', '*.K'])])
-            add({'mods': mods, 'privacy': privacy, 'html': i == 0}, 'generated')
+            c: Dict[str, Any] = {'mods': mods, 'privacy': privacy}
+            x = r.random()
+            rootnames = [m[0] for m in mods if m[2] is None]
+            pickable = [n_ for n_ in rootnames if rootnames.count(n_) == 1] + \
+                [m[2] + '.' + m[0] for m in mods if m[2] is not None and rootnames.count(m[2]) == 1]
+            if x < 0.08:
+                c['mode'] = 'html'
+            elif x < 0.12:
+                c['mode'] = 'html+intersphinx'
+            elif x < 0.18:
+                c['mode'] = 'summary'
+            elif x < 0.26 and pickable:
+                c['mode'] = 'subject'
+                c['subjects'] = r.sample(sorted(set(pickable)), min(len(set(pickable)), r.randint(1, 2)))
+            else:
+                c['mode'] = 'intersphinx'
+            add(c, 'generated')
+            self.count('project_mode_' + c['mode'])
         return out
 
     # ------------------------------------------------------------------ correspondence
@@ -699,7 +744,7 @@ class Check(PropertyCheck):
                     v.case, v.observed, v.what = small, o, m
 
     def check_projects(self, cases: List[Dict[str, Any]], out: List[Violation]) -> None:
-        impl = lib.run_impl_worker(WORKER, cases, jobs=8 if len(cases) >= 32 else 1)
+        impl = lib.run_impl_worker(WORKER, cases, jobs=12 if len(cases) >= 48 else 1)
         wire2, wire1 = [], []
         for c, r in zip(cases, impl):
             if r.get('build_exc'):
@@ -708,8 +753,23 @@ class Check(PropertyCheck):
                 continue
             wire2.append(enc([2, r['root_names'], r['dump'], r['project'], r['version']]))
             wire1.append(fetch_to_wire(fetch_case([(URL, bytes.fromhex(r['data']))], [])))
+        wire7 = []
+        for r in impl:
+            mk = r.get('make') or {'makehtml': False, 'makeintersphinx': False, 'htmlsubjects': [], 'summarypages': False, 'roots': []}
+            wire7.append(enc([7, mk['makehtml'], mk['makeintersphinx'], mk['htmlsubjects'], mk['summarypages'], mk['roots']]))
         m2 = self.model('inventory', wire2)
         m1 = self.model('inventory', wire1)
+        m7 = self.model('inventory', wire7)
+        for c, r, mk7 in zip(cases, impl, m7):
+            if r.get('build_exc'):
+                continue
+            h, i = dec(mk7)
+            exp = {'html_subjects': [txt(x) for x in h[0]] if h else None, 'inv_subjects': [txt(x) for x in i[0]] if i else None}
+            got = {'html_subjects': r['make']['html_subjects'], 'inv_subjects': r['make']['inv_subjects']}
+            if exp != got:
+                out.append(Violation('correspondence', 'Model.Inventory.make_subjects and driver.make disagree on the subjects '
+                                     'given to the HTML writer / the inventory writer (mode %s)' % r.get('mode'),
+                                     case=c, expected=exp, observed=got))
         for c, r, a, b in zip(cases, impl, m2, m1):
             self.evaluations += 1
             if r.get('build_exc'):
@@ -741,7 +801,7 @@ class Check(PropertyCheck):
             self.count('project_objects', nvis)
             self.count('project_registry_agrees_%s' % r['registry_agrees'])
             self.count('project_hidden_objects', nh)
-            if nh or any(' ' in n for n, _ in r['visible']):
+            if nh or any(' ' in n for n, _ in r['visible']) or r.get('mode') != 'intersphinx':
                 self.nontrivial.add('P' + json.dumps(c, sort_keys=True))
             o = oracle_project(c, r)
             if o:
@@ -911,7 +971,12 @@ class Check(PropertyCheck):
             print('property :', msg or 'holds on this input')
             rc = 1 if msg else 0
         elif case['k'] == 'project':
-            print('project  :', json.dumps({k: v for k, v in case.items() if k in ('mods', 'files', 'paths', 'privacy')})[:1500])
+            print('project  :', json.dumps({k: v for k, v in case.items() if k in ('mods', 'files', 'paths', 'privacy', 'mode', 'subjects')})[:1500])
+            if not r.get('build_exc'):
+                print('make     :', r['make'])
+                if 'documented' in r:
+                    print('documented by this run:', r['documented'][:40], '(%d pages written)' % r['pages_written'])
+                    print('entries whose target was not written:', [t for t in r['targets'] if not (t[2] and t[3])][:20])
             if not r.get('build_exc'):
                 print('visible  :', r['visible'][:40])
                 print('pydoctor :', r['pyd']['links'][:40], r['pyd']['reports'][:5], r['pyd']['exc'])
